@@ -310,7 +310,51 @@ func (p *Path) assert(site string, cond value) {
 	r, mv := p.sess.CheckWith(extra, inputs)
 	switch r {
 	case Sat:
-		p.cands = append(p.cands, p.mkCand(site, "", mv))
+		c := p.mkCand(site, "", mv)
+		if len(p.sess.ufs) > 0 {
+			// The model interprets math.Pow / calendar functions freely, so
+			// it may not be a real-world witness: collect a few more models
+			// (each differing in some input) for the native replay to try.
+			c.UF = true
+			p.cands = append(p.cands, c)
+			block := append([]*Term{}, extra...)
+			for k := 0; k < 7; k++ {
+				diff := p.ts.Bool(false)
+				for _, in := range p.inputs {
+					if in.T == nil {
+						continue
+					}
+					v, ok := mv[in.T]
+					if !ok {
+						continue
+					}
+					var eq *Term
+					switch in.T.sort.k {
+					case sBool:
+						eq = p.ts.Eq(in.T, p.ts.Bool(v != 0))
+					case sFP:
+						eq = p.ts.Eq(in.T, p.ts.intern(&Term{op: "const", sort: in.T.sort, cv: v, isC: true}))
+					default:
+						eq = p.ts.Eq(in.T, p.ts.BV(v, in.T.sort.w))
+					}
+					diff = p.ts.Or(diff, p.ts.Not(eq))
+				}
+				if diff.isC {
+					break
+				}
+				block = append(block, diff)
+				var r2 Result
+				r2, mv = p.sess.CheckWith(block, inputs)
+				if r2 != Sat {
+					break
+				}
+				c2 := p.mkCand(site, "", mv)
+				c2.UF = true
+				p.cands = append(p.cands, c2)
+			}
+		} else {
+			p.cands = append(p.cands, c)
+		}
 	case Unknown:
 		p.incon = append(p.incon, "assert "+site+": solver unknown")
 	}
